@@ -267,3 +267,70 @@ pub fn run_full(text: &str, args: Arguments, wits: WitnessValues, debug: bool, e
     };
     satisfy_and_run(&c, &info, wits, None, env)
 }
+
+/// Correct restriction of `value` to `ty` (the value's type with some subtrees replaced by unit),
+/// computed from compact bits only; `None` if `ty` is not such a restriction.
+pub fn restrict_value(value: &simfony::simplicity::Value, ty: &simfony::simplicity::types::Final) -> Option<Vec<bool>> {
+    use simfony::simplicity::types::CompleteBound;
+    fn go(v: simfony::simplicity::ValueRef, ty: &simfony::simplicity::types::Final, out: &mut Vec<bool>) -> Option<()> {
+        match ty.bound() {
+            CompleteBound::Unit => Some(()),
+            CompleteBound::Sum(l, r) => {
+                if let Some(x) = v.as_left() {
+                    out.push(false);
+                    go(x, l, out)
+                } else {
+                    out.push(true);
+                    go(v.as_right()?, r, out)
+                }
+            }
+            CompleteBound::Product(l, r) => {
+                let (a, b) = v.as_product()?;
+                go(a, l, out)?;
+                go(b, r, out)
+            }
+        }
+    }
+    let mut out = vec![];
+    go(value.as_ref(), ty, &mut out)?;
+    Some(out)
+}
+
+/// Root-cause predicate for a known defect of simplicity-lang 0.4.0: does `RedeemNode::prune`
+/// (which shrinks witness values with `Value::prune`) leave a witness value in the pruned program
+/// that is not the correct restriction of a witness value of the unpruned program, or return a
+/// program that does not run under the environment it was pruned for? Both are computed from the
+/// dependency call `unpruned.prune(env)` alone, before simfony touches the result.
+pub fn dependency_prune_corrupts_witness(c: &CompiledProgram, wits: WitnessValues, env: &Env) -> bool {
+    let r = catch(|| {
+        let sat = c.satisfy(wits).ok()?;
+        let unpruned = Arc::clone(sat.redeem());
+        let raw = unpruned.prune(env).ok()?;
+        let originals: Vec<simfony::simplicity::Value> = unpruned
+            .as_ref()
+            .post_order_iter::<InternalSharing>()
+            .filter_map(|i| match i.node.inner() {
+                Inner::Witness(v) => Some(v.shallow_clone()),
+                _ => None,
+            })
+            .collect();
+        // (a) the dependency's own result does not run under the environment it was pruned for
+        if !matches!(exec(&raw, env), Ok(Ok(()))) {
+            return Some(true);
+        }
+        // (b) its witness values are not, in order, restrictions of original witness values
+        let mut next = 0usize;
+        for item in raw.as_ref().post_order_iter::<InternalSharing>() {
+            if let Inner::Witness(p) = item.node.inner() {
+                let ty = &item.node.arrow().target;
+                let got: Vec<bool> = p.iter_compact().collect();
+                match (next..originals.len()).find(|&i| restrict_value(&originals[i], ty).map_or(false, |bits| bits == got)) {
+                    Some(i) => next = i + 1,
+                    None => return Some(true),
+                }
+            }
+        }
+        Some(false)
+    });
+    matches!(r, Ok(Some(true)))
+}
